@@ -221,7 +221,7 @@ package netconf
 //@   requires #the-channel-is-closed-here-only-after-its-own-open-succeeded reterr != nil ==> chanOpenOK
 //@ func (*Driver).Open [C08 C09 C06 C07]
 //@   after call Open#1 set chanOpenOK = (result == nil)
-//@   requires RI(d.Channel.Q) && d.Channel.PromptSearchDepth >= 0 && d.Channel.Errs != d.Channel.Q.depthChan && d.errs != d.Channel.Q.depthChan && d.done != d.Channel.Q.depthChan
+//@   requires RI(d.Channel.Q) && d.Channel.PromptSearchDepth >= 0 && d.Channel.Errs != d.Channel.Q.depthChan && d.Channel.done != d.Channel.Q.depthChan && d.errs != d.Channel.Q.depthChan && d.done != d.Channel.Q.depthChan
 //@   requires d.messages != nil && d.subscriptions != nil
 //@   ensures #reader-started-only-on-success-with-a-settled-version result == nil ==> (d.SelectedVersion == "1.0" || d.SelectedVersion == "1.1")
 
